@@ -59,7 +59,7 @@ H2 == /\ Live("h2") /\ UNCHANGED stats
       /\ JudgeK(<< <<"H2Table", H2OK(s.stim.reason, E.code)>> >>,
                 [s EXCEPT !.seen = @ \cup {"h2"}])
 End == EndK(<< <<"RunComplete", E.outcome = "ok" => (IF s.stim.kind \in {"rt", "parse"} THEN "parsed" \in s.seen \/ (s.stim.kind = "rt" /\ "hdrs" \in s.seen)
-                                                     ELSE s.stim.kind \in s.seen)>> >>)
+                                                     ELSE (s.stim.kind \in s.seen \/ (s.stim.kind = "h2_remote" /\ "h2" \in s.seen)))>> >>)
 
 Known == {"reset", "built", "written", "hdrs", "input", "parsed", "http", "h2", "end"}
 Next == Reset \/ Built \/ Written \/ Hdrs \/ Input \/ Parsed \/ Http \/ H2 \/ End \/ UnknownK(Known) \/ DeadSkipK
